@@ -483,9 +483,9 @@ def check_C18(tier, seed):
     ncpu = os.cpu_count() or 16
     bgroups = []
     for i, c in enumerate(deep):
-        for point, rounds in (("stages", 40 if quick else 300), ("bind_group_data", 10 if quick else 60)):
+        for point, rounds in (("stages", 40 if quick else 150), ("bind_group_data", 10 if quick else 30)):
             bgroups.append({"id": "b-%d-%s" % (i, point), "cases": [c] * min(ncpu, 16), "schedule": [], "barrier": point, "rounds": rounds})
-    bgroups.append({"id": "b-mixed", "cases": [deep[q % len(deep)] for q in range(min(ncpu, 16))], "schedule": [], "barrier": "stages", "rounds": 40 if quick else 300})
+    bgroups.append({"id": "b-mixed", "cases": [deep[q % len(deep)] for q in range(min(ncpu, 16))], "schedule": [], "barrier": "stages", "rounds": 40 if quick else 150})
     evH = run_vdriver_raw("sched", bgroups, "C18_H", timeout=1200)
     # (v') one long history in one process: 300 calls alternating over the shaders, then every shader once more
     longL = [dict(L[(7 * q) % len(L)], repeat=0) for q in range(300 if quick else 3000)] + [dict(c, repeat=0) for c in L]
